@@ -281,6 +281,18 @@ def run(ck):
             else:
                 m = m[:p]
             texts.append((m, "mutated"))
+    # numbers with many digits: alone (a text may be a single number), with white space, and inside a structure
+    for _ in range(200 if quick else 5000):
+        nd = 15 + r() % 4
+        digits = str(1 + r() % 9) + "".join(str(r() % 10) for _ in range(nd - 1))
+        pos = r() % (nd + 1)
+        t = (digits[:pos] or "0") + ("." + digits[pos:] if pos < nd else "")
+        if r() % 3 == 0:
+            t += "e%d" % (r() % 600 - 300)
+        if r() % 4 == 0:
+            t = "-" + t
+        wrap = r() % 4
+        texts.append((units_of(t if wrap == 0 else (" " + t + "\n" if wrap == 1 else ("[" + t + "]" if wrap == 2 else "{\"n\":" + t + "}"))), "long-number"))
     for t in FIXED_TEXTS:
         texts.append((units_of(t), "fixed"))
     texts.append(([0x22, 0xD800, 0x22], "raw-lone-surrogate"))
